@@ -12,6 +12,7 @@ Mark sets are sorted duplicate-free lists of mark names (`Marks.lean`).
 Core Lean only: the driver links this file.
 -/
 import CtyModel.Ops2
+import CtyModel.SetImpl
 namespace CtyModel
 
 /-- union of a slice of mark sets (`WithMarks(marks...)`, `NewValueMarks`) -/
@@ -223,6 +224,76 @@ def markPathsObj (pvm : List PVM) (ts : List Ty) (path : Path) : List String →
     | .unmodelled => .unmodelled
   | _, vs => .ok vs
 end
+
+/-!
+### `Value.UnmarkDeep` as `transform` really computes it: sets are REBUILT
+
+`transform` replaces every non-empty set node by `SetVal(members in iteration
+order)`.  The members keep their buckets, but inside a bucket the slice order
+becomes the iteration order — `Values()`: bucket order, then `sort.SliceStable`
+by `setRules.Less` — instead of the order in which the members were once added.
+That changes the payload only when one bucket holds several members that `Less`
+puts in another order than they are stored in (members whose hash bytes collide
+under crc32); `RawEquals` and every accessor go through `Values()` and cannot
+tell.  `stripMarks` (Marks.lean) leaves sets as they are; the two agree up to
+that re-ordering (`Lemmas/MarksSets`: `sameSets_unmarkDeepR`).
+
+`bytesLess` is `bytes.Compare(makeSetHashBytes(a), makeSetHashBytes(b)) < 0`, the
+order `Less` uses for element types that are not primitive (an oracle).
+-/
+
+/-- `setRules{ety}.Less(a, b)` on mark-free member payloads -/
+def memberLess (bytesLess : Ty → Payload → Payload → Bool) (ety : Ty) (a b : Payload) : Bool :=
+  if a == b then false
+  else if b.isNull && !a.isNull then true
+  else if a.isNull then false
+  else if a.isKnown && !b.isKnown then true
+  else if !a.isKnown then false
+  else match ety with
+    | .string => (match a, b with
+      | .s x, .s y => decide (x < y)
+      | _, _ => false)
+    | .bool => (match a, b with
+      | .b x, .b y => y || !x
+      | _, _ => false)
+    | .number => (match a, b with
+      | .n x, .n y => decide (Num.cmp x y < 0)
+      | _, _ => false)
+    | _ => bytesLess ety a b
+
+/-- `SetVal(Values())`: the members in iteration order (stable sort by `Less`),
+added one by one to a fresh bucket map (stable regrouping by bucket id) -/
+def rebuildSet (less : Payload → Payload → Bool) (ids : List Int) (vs : List Payload) : List Int × List Payload :=
+  let sorted := SetImpl.sortStable (fun a b => less a.2 b.2) (ids.zip vs)
+  let regrouped := SetImpl.sortStable (fun a b => decide (a.1 < b.1)) sorted
+  (regrouped.map (·.1), regrouped.map (·.2))
+
+mutual
+def unmarkDeepR (bl : Ty → Payload → Payload → Bool) (t : Ty) : Payload → Payload
+  | .marked _ r => unmarkDeepR bl t r
+  | .seq vs =>
+    match t with
+    | .tuple es => .seq (unmarkDeepRZip bl es vs)
+    | t => .seq (unmarkDeepRAll bl (elemTy t) vs)
+  | .smap ks vs =>
+    match t with
+    | .object _ ts _ => .smap ks (unmarkDeepRZip bl ts vs)
+    | t => .smap ks (unmarkDeepRAll bl (elemTy t) vs)
+  | .sset ids vs =>
+    let r := rebuildSet (memberLess bl (elemTy t)) ids (unmarkDeepRAll bl (elemTy t) vs)
+    .sset r.1 r.2
+  | p => p
+def unmarkDeepRAll (bl : Ty → Payload → Payload → Bool) (e : Ty) : List Payload → List Payload
+  | [] => []
+  | v :: vs => unmarkDeepR bl e v :: unmarkDeepRAll bl e vs
+def unmarkDeepRZip (bl : Ty → Payload → Payload → Bool) : List Ty → List Payload → List Payload
+  | _, [] => []
+  | ts, v :: vs => unmarkDeepR bl (ts.headD .dyn) v :: unmarkDeepRZip bl ts.tail vs
+end
+
+/-- `Value.UnmarkDeep()`, sets rebuilt -/
+def unmarkDeepRPair (bl : Ty → Payload → Payload → Bool) (v : Value) : Value × List String :=
+  (⟨v.ty, unmarkDeepR bl v.ty v.v⟩, v.marksDeep)
 
 /-- `Value.MarkWithPaths(pvm)` -/
 def markWithPaths (v : Value) (pvm : List PVM) : Res Value :=
